@@ -101,7 +101,7 @@ theorem Sq.ext_coord {a b : Sq} (hf : a.file = b.file) (hr : a.rank = b.rank) : 
 theorem Sq.eq_iff_coord (a b : Sq) : a = b ↔ a.file = b.file ∧ a.rank = b.rank :=
   ⟨fun h => by subst h; exact ⟨rfl, rfl⟩, fun h => Sq.ext_coord h.1 h.2⟩
 
-theorem sq?_eq_some (f r : Int) (x : Sq) : sq? f r = some x ↔ x.file = f ∧ x.rank = r := by
+theorem sq?_eq_some_iff (f r : Int) (x : Sq) : sq? f r = some x ↔ x.file = f ∧ x.rank = r := by
   have hx := Sq.coord_bounds x
   have hv := Sq.val_coord x
   unfold sq?
@@ -121,13 +121,13 @@ theorem sq?_eq_some (f r : Int) (x : Sq) : sq? f r = some x ↔ x.file = f ∧ x
     · intro he; cases he
     · intro he; exfalso; apply h; omega
 
-theorem sq?_eq_none (f r : Int) : sq? f r = none ↔ ¬ (0 ≤ f ∧ f < 8 ∧ 0 ≤ r ∧ r < 8) := by
+theorem sq?_eq_none_iff (f r : Int) : sq? f r = none ↔ ¬ (0 ≤ f ∧ f < 8 ∧ 0 ≤ r ∧ r < 8) := by
   unfold sq?
   split <;> simp_all
 
 theorem step?_eq_some (a : Sq) (u : Dir) (n : Nat) (x : Sq) :
     step? a u n = some x ↔ x.file = a.file + n * u.df ∧ x.rank = a.rank + n * u.dr := by
-  unfold step?; exact sq?_eq_some _ _ _
+  unfold step?; exact sq?_eq_some_iff _ _ _
 
 theorem onRay_iff (a : Sq) (u : Dir) (n : Nat) (b : Sq) :
     onRay a u n b = true ↔ 0 < n ∧ b.file = a.file + n * u.df ∧ b.rank = a.rank + n * u.dr := by
@@ -184,7 +184,7 @@ theorem step?_isSome_of_le {s : Sq} {u : Dir} {n m : Nat} {x : Sq}
   | none =>
     exfalso
     unfold step? at hz
-    rw [sq?_eq_none] at hz
+    rw [sq?_eq_none_iff] at hz
     apply hz
     cases u <;> simp only [Dir.df, Dir.dr] at h1 h2 ⊢ <;> omega
 
